@@ -104,8 +104,10 @@ func (c *Cluster) WriteBurst(node, nw int, park bool) []*WriteRec {
 		})
 	}
 	type bw struct {
-		p  *WritePlan
-		op *Op
+		p         *WritePlan
+		op        *Op
+		cancel    context.CancelFunc
+		cancelled bool
 	}
 	var ws []*bw
 	for i := 0; i < nw; i++ {
@@ -114,9 +116,10 @@ func (c *Cluster) WriteBurst(node, nw int, park bool) []*WriteRec {
 			continue
 		}
 		w := &bw{p: p}
+		ctx, cancel := OpCtx(10 * time.Minute)
+		w.cancel = cancel
+		k.cleanups = append(k.cleanups, func() { cancel() })
 		w.op = k.Go(node, p.Name, func() (interface{}, error) {
-			ctx, cancel := OpCtx(10 * time.Minute)
-			defer cancel()
 			return p.F(ctx)
 		})
 		ws = append(ws, w)
@@ -135,6 +138,14 @@ func (c *Cluster) WriteBurst(node, nw int, park bool) []*WriteRec {
 		ps := k.Parks()
 		if len(ps) > maxParked {
 			maxParked = len(ps)
+		}
+		if c.BurstCancel && len(ps) > 0 && k.C.Chance(1, 8) {
+			// the client of one of the writers gives up while the writer sits between two steps
+			if w := ws[k.C.Intn(len(ws))]; !w.cancelled && !k.IsDone(w.op) {
+				w.cancelled = true
+				w.cancel()
+				k.W.Stat("writer-context-cancelled-mid-write")
+			}
 		}
 		if len(ps) > 0 && k.C.Chance(3, 5) {
 			k.bump()
@@ -164,6 +175,15 @@ func (c *Cluster) WriteBurst(node, nw int, park bool) []*WriteRec {
 	for _, w := range ws {
 		if w.op.Err != nil {
 			if w.p.MayRefuse {
+				continue
+			}
+			if w.cancelled {
+				// not acknowledged: its entry may be in the log all the same
+				for _, e := range LogValues(st) {
+					if h := e.GetHash().String(); !seen[h] && c.ByHash[h] == nil {
+						c.Maybe[h] = true
+					}
+				}
 				continue
 			}
 			k.Failf("write-error", "%s by authorised writer (one of %d concurrent) failed: %v", w.p.What, nw, w.op.Err)
@@ -344,6 +364,11 @@ func (c *Cluster) PairwiseAgreement(sig string) (comparisons int) {
 	var os []obs
 	for i, s := range c.Stores {
 		if s == nil {
+			continue
+		}
+		// a replica with a local write between its log append and its view update is not in
+		// a state the property speaks about
+		if c.K.opsInFlightOn(i) > 0 {
 			continue
 		}
 		seq := LogHashSeq(s)
